@@ -13,6 +13,7 @@ import GrcovModel.Props.C03CobAde
 import GrcovModel.Props.C03CobBytes
 import GrcovModel.Props.C03Docs
 import GrcovModel.Props.C03Main
+import GrcovModel.Props.C03JsonBytes
 namespace Grcov.Props.C03
 open Grcov AList Grcov.Writers
 
